@@ -181,6 +181,7 @@ impl St {
 
 pub struct Params {
     pub second: Option<(f64, f64, f64)>,
+    pub third: Option<(f64, f64, f64)>,
     pub len: f64,
     pub ratio: f64,
     pub angle: f64,
@@ -205,10 +206,41 @@ fn optimised<S: State + serde::de::DeserializeOwned>(st: S, spec: &Spec) -> S {
     for stage in 0..chain.max(1) {
         let mut b = packing::BuildOptimiser::default();
         b.steps(steps).inner_steps((steps / 4).max(1)).kt_start(kt).kt_ratio(Some(0.5)).max_step_size(0.2).seed(seed + stage);
-        let out = b.build().optimise_state(cur.clone());
-        cur = serde_json::from_value(serde_json::to_value(&out).unwrap()).expect("optimised state from JSON");
+        // a stage that starts from a valid state must return, and what it returns must be a state a file can hold
+        let valid = cur.score().map(|x| x.is_finite()).unwrap_or(false);
+        let start = cur.clone();
+        let res = catch_unwind(AssertUnwindSafe(move || {
+            let out = b.build().optimise_state(start);
+            serde_json::to_value(&out).unwrap()
+        }));
+        let v = match res {
+            Ok(v) => v,
+            Err(e) => {
+                if valid {
+                    let msg = e.downcast_ref::<String>().cloned().or_else(|| e.downcast_ref::<&str>().map(|s| s.to_string())).unwrap_or_default();
+                    BUILD_NOTES.with(|n| n.borrow_mut().push(format!(
+                        "stage {} of an optimisation chain that started from a valid state panicked: {}", stage + 1, msg.chars().take(200).collect::<String>())));
+                }
+                panic!("optimisation stage panicked");
+            }
+        };
+        cur = match serde_json::from_value(v.clone()) {
+            Ok(c) => c,
+            Err(e) => {
+                if valid {
+                    BUILD_NOTES.with(|n| n.borrow_mut().push(format!(
+                        "the state returned by stage {} of a chain that started from a valid state cannot be read back from its own JSON ({}): site {}", stage + 1, e, v["occupied_sites"][0])));
+                }
+                panic!("optimised state from JSON");
+            }
+        };
     }
     cur
+}
+
+thread_local! {
+    /// what went wrong while a case's state was being built (drained by run_state_case)
+    static BUILD_NOTES: std::cell::RefCell<Vec<String>> = std::cell::RefCell::new(vec![]);
 }
 
 /// cuts= / epss= / sigs= : per-particle overrides of a Lennard-Jones molecule (values separated by ':', '-' = no
@@ -247,12 +279,32 @@ fn inject<S: serde::Serialize + serde::de::DeserializeOwned>(st: &S, p: &Option<
             s2["angle"] = json!(p2);
             v["occupied_sites"].as_array_mut().unwrap().push(s2);
         }
+        if let Some((x3, y3, p3)) = p.third {
+            let mut s3 = v["occupied_sites"][0].clone();
+            s3["x"] = json!(x3);
+            s3["y"] = json!(y3);
+            s3["angle"] = json!(p3);
+            v["occupied_sites"].as_array_mut().unwrap().push(s3);
+        }
     }
     serde_json::from_value(v).expect("state from JSON")
 }
 
 /// family=Hexagonal|Tetragonal|Orthorhombic|Monoclinic : the crystal family of the cell as a file may state it
 fn with_family<S: serde::Serialize + serde::de::DeserializeOwned>(st: S, spec: &Spec) -> S {
+    // rots=N : the (unused) rotation count of every site as a file may state it
+    let st = match spec.kv.get("rots") {
+        None => st,
+        Some(n) => {
+            let mut v = serde_json::to_value(&st).unwrap();
+            if let Some(sites) = v["occupied_sites"].as_array_mut() {
+                for s in sites.iter_mut() {
+                    s["wyckoff"]["num_rotations"] = json!(n.parse::<u64>().unwrap_or(1));
+                }
+            }
+            serde_json::from_value(v).expect("state with another rotation count")
+        }
+    };
     match spec.kv.get("family") {
         None => st,
         Some(f) => {
@@ -279,7 +331,8 @@ pub fn build(spec: &Spec) -> St {
     let parts: Vec<&str> = shape.split(':').collect();
     let lj = spec.get_or("kind", "hard") == "lj";
     let p = if spec.kv.contains_key("len") {
-        Some(Params { second: if spec.kv.contains_key("x2") { Some((spec.f("x2"), spec.f("y2"), spec.f("phi2"))) } else { None }, len: spec.f("len"), ratio: spec.f("ratio"), angle: spec.f("angle"), x: spec.f("x"), y: spec.f("y"), phi: spec.f("phi") })
+        Some(Params { second: if spec.kv.contains_key("x2") { Some((spec.f("x2"), spec.f("y2"), spec.f("phi2"))) } else { None },
+                      third: if spec.kv.contains_key("x3") { Some((spec.f("x3"), spec.f("y3"), spec.f("phi3"))) } else { None }, len: spec.f("len"), ratio: spec.f("ratio"), angle: spec.f("angle"), x: spec.f("x"), y: spec.f("y"), phi: spec.f("phi") })
     } else {
         None
     };
@@ -576,9 +629,11 @@ pub fn run_state_case(spec: &Spec, out: &mut dyn Write) -> GeomOut {
     let st = match catch_unwind(AssertUnwindSafe(|| build(spec))) {
         Ok(s) => s,
         Err(_) => {
-            return GeomOut { findings: vec![], meta: "built=false".into() };
+            let notes: Vec<String> = BUILD_NOTES.with(|n| n.borrow_mut().drain(..).collect());
+            return GeomOut { findings: notes.into_iter().map(|w| Finding { property: "C08,C20", what: w }).collect(), meta: "built=false".into() };
         }
     };
+    BUILD_NOTES.with(|n| n.borrow_mut().clear());
     let group = spec.get("group");
     let js = st.json();
     let site = &js["occupied_sites"][0];
@@ -1075,13 +1130,14 @@ pub fn run_state_case(spec: &Spec, out: &mut dyn Write) -> GeomOut {
                     add(&mut f, "C11", format!("SVG element {} is {:?} with {} numbers, expected {}", k, href, nums.len(), ehref));
                     break;
                 }
-                // what the SVG matrix(a b c d e f) does to probe points: (a x + c y + e, b x + d y + f)
-                let tol = 1e-9 * scale.max(1.);
+                // matrix(a b c d e f) = (m00 m10 m01 m11 m02 m12), entry by entry: the linear part to 1e-9, the
+                // translation to 1e-9 of the cell's own scale (a structure of size 1e-13 is drawn at 1e-13, not at 0)
+                let want = [m[0], m[3], m[1], m[4], m[2], m[5]];
+                let cell_scale = a.abs().max(b.abs());
                 let mut bad = false;
-                for p in [(0., 0.), (1., 0.), (0., 1.)].iter() {
-                    let got = (nums[0] * p.0 + nums[2] * p.1 + nums[4], nums[1] * p.0 + nums[3] * p.1 + nums[5]);
-                    let want = apply(m, *p);
-                    if (got.0 - want.0).abs() > tol || (got.1 - want.1).abs() > tol {
+                for q in 0..6 {
+                    let tol = if q < 4 { 1e-9 * want[q].abs().max(1.) } else { 1e-9 * want[q].abs().max(cell_scale) };
+                    if !((nums[q] - want[q]).abs() <= tol) && !(nums[q].is_nan() && want[q].is_nan()) {
                         bad = true;
                     }
                 }
@@ -1182,6 +1238,10 @@ pub fn run_state_case(spec: &Spec, out: &mut dyn Write) -> GeomOut {
                         s2.kv.insert("x2".into(), fmt_f(wrapc(spec.f("x2") + hx)));
                         s2.kv.insert("y2".into(), fmt_f(wrapc(spec.f("y2") + hy)));
                     }
+                    if spec.kv.contains_key("x3") {
+                        s2.kv.insert("x3".into(), fmt_f(wrapc(spec.f("x3") + hx)));
+                        s2.kv.insert("y3".into(), fmt_f(wrapc(spec.f("y3") + hy)));
+                    }
                     if let Ok(st2) = catch_unwind(AssertUnwindSafe(|| build(&s2))) {
                         if let (Some(s1), Some(s2v)) = (score, st2.score()) {
                             // the allowed difference: rounding, plus (uncut potential) the truncation error
@@ -1258,6 +1318,35 @@ pub fn run_pair_case(spec: &Spec, out: &mut dyn Write) -> GeomOut {
     let ba = st.impl_intersects(&t2, &t1);
     let sep = separation(&items, &t1, &t2).unwrap_or(f64::NAN);
     writeln!(out, "K {}", spec.text).unwrap();
+    // the crate's own composition of transforms (Transform2 * Transform2) on these operands, mirrors on either
+    // side: recorded for the model's matrix product, and compared here with the product formed by hand
+    {
+        let o1 = parse_t(spec.get("t1"));
+        let o2 = parse_t(spec.get("t2"));
+        let mut pairs: Vec<(M9, M9)> = vec![(o1, o2), (o2, o1)];
+        if let Some(c) = spec.kv.get("common") {
+            let g = parse_t(c);
+            pairs.push((g, o1));
+            pairs.push((g, o2));
+            pairs.push((o2, g));
+        }
+        for (l, r) in pairs.iter() {
+            let p: nalgebra::Matrix3<f64> = (tf_of(l) * tf_of(r)).into();
+            let got: M9 = [p[(0, 0)], p[(0, 1)], p[(0, 2)], p[(1, 0)], p[(1, 1)], p[(1, 2)], p[(2, 0)], p[(2, 1)], p[(2, 2)]];
+            writeln!(out, "U {} {} {}", hex9(l), hex9(r), hex9(&got)).unwrap();
+            let want = [
+                l[0] * r[0] + l[1] * r[3], l[0] * r[1] + l[1] * r[4], l[0] * r[2] + l[1] * r[5] + l[2],
+                l[3] * r[0] + l[4] * r[3], l[3] * r[1] + l[4] * r[4], l[3] * r[2] + l[4] * r[5] + l[5],
+                0., 0., 1.,
+            ];
+            let scale = 1. + l[2].abs().max(l[5].abs()).max(r[2].abs()).max(r[5].abs());
+            if (0..9).any(|k| !((got[k] - want[k]).abs() <= 1e-12 * scale)) {
+                add(&mut f, "C12,C04,C14", format!(
+                    "Transform2 * Transform2 is not the composition of its operands: {:?} * {:?} gives {:?}, the product of the matrices is {:?}",
+                    &l[..6], &r[..6], &got[..6], &want[..6]));
+            }
+        }
+    }
     match &items {
         Items::Segs(v) => {
             writeln!(out, "P {}", v.len()).unwrap();
